@@ -37,28 +37,47 @@ def render(q, table):
     return ''.join(table[c] for c in q).encode(fcsgen.ENC)
 
 
+RENDERINGS = None
+
+
+def gen_work(st):
+    """one dumped state -> list of (label or None, raw bytes, delimiter, observed) per rendering"""
+    scn, out = st['scn'], st['out']
+    q, mode = scn['q'], scn['mode']
+    res = []
+    for table in RENDERINGS:
+        raw = render(q, table)
+        dl = table[0]
+        k, text, warn, exc = real_segment(raw, dl, mode == 'supp', auto=(mode == 'auto'))
+        obs = {'k': k, 'warn': warn}
+        if k == 'ok':
+            inv = {v: c for c, v in table.items()}
+            obs['dict'] = sorted([[inv[ch] for ch in kk], [inv[ch] for ch in vv]] for kk, vv in text.items())
+        lab = None
+        if not judge(out, obs):
+            lab = 'C14/gen/' + ('accepted-illformed' if out['k'] == 'err' else
+                                ('refused-wellformed' if obs['k'] == 'err' else 'pairs-or-warn'))
+        res.append((lab, list(raw), dl, obs))
+    return res
+
+
 def gen_part(chk, L, renderings):
+    global RENDERINGS
+    import multiprocessing as mp
+    RENDERINGS = renderings
     cfg = 'INIT Init\nNEXT Next\nCONSTANT L = %d\nINVARIANT ReEncodes\nINVARIANT SuppAgrees\nINVARIANT NoSilentRepair\n' % L
     res = tlc.require_ok(tlc.run_tlc('Gen_C14', cfg, dump=True), 'Gen_C14')
     chk.add_tlc(res, 'Gen_C14(L=%d)' % L)
+    states = list(res.dump_states())
+    with mp.get_context('fork').Pool(min(16, os.cpu_count() or 1)) as pool:
+        outs = pool.map(gen_work, states, chunksize=2000)
     n = 0
     neg_done = False
-    for st in res.dump_states():
+    for st, per in zip(states, outs):
         scn, out = st['scn'], st['out']
         q, mode = scn['q'], scn['mode']
-        for table in renderings:
-            raw = render(q, table)
-            dl = table[0]
-            k, text, warn, exc = real_segment(raw, dl, mode == 'supp', auto=(mode == 'auto'))
-            obs = {'k': k, 'warn': warn}
-            if k == 'ok':
-                inv = {v: c for c, v in table.items()}
-                if mode == 'auto' and q:
-                    # delimiter is the first byte; rename symbols so that it has code q[0]'s role
-                    pass
-                obs['dict'] = sorted([[inv[ch] for ch in kk], [inv[ch] for ch in vv]] for kk, vv in text.items())
-            ok = judge(out, obs)
-            if not neg_done and out['k'] == 'ok' and out['dicts'] and any(len(d) for d in out['dicts']):
+        for lab, raw, dl, obs in per:
+            if not neg_done and out['k'] == 'ok' and any(len(d) for d in out['dicts']) and lab is None:
                 bad = dict(obs)
                 bad['dict'] = obs['dict'][:-1] if obs.get('dict') else None
                 chk.negative_control(not judge(out, bad), 'C14 gen comparator accepts a dropped pair')
@@ -66,10 +85,8 @@ def gen_part(chk, L, renderings):
             nontrivial = (out['k'] == 'ok' and any(len(d) for d in out['dicts'])) or (out['k'] == 'err' and 0 in q)
             chk.case(('g', tuple(q), mode), nontrivial=nontrivial,
                      sample={'q': q, 'mode': mode, 'expected': out, 'observed': obs} if (n % 9973 == 17) else None)
-            if not ok:
-                cls = 'C14/gen/' + ('accepted-illformed' if out['k'] == 'err' else
-                                    ('refused-wellformed' if obs['k'] == 'err' else 'pairs-or-warn'))
-                chk.violation(cls, {'q': q, 'mode': mode, 'bytes': list(raw), 'delim': dl}, out, obs)
+            if lab:
+                chk.violation(lab, {'q': q, 'mode': mode, 'bytes': raw, 'delim': dl}, out, obs)
             n += 1
         chk.traces += 1
     if not neg_done:
